@@ -691,8 +691,12 @@ def single_caller_helpers(facts, anchors, pinned):
         # possibly public, helper (`pub fn check_x(&self, ..)` used by the anchor and by a front end) is still looked through at
         # the anchor's call site
         all_sites = ss
+        def _same_area(b):
+            # the anchor's own module, or a private module below it (`mod follow;` holding `pub(super) fn scan_history`)
+            hm, am = _module(h.def_), _module(facts.enclosing_fn(b))
+            return hm == am or (hm.startswith(am + "::") and (h.vis or "").startswith("Restricted"))
         def _near(b):
-            if _module(h.def_) == _module(facts.enclosing_fn(b)):
+            if _same_area(b):
                 return True
             # a store method written for one front-end handler (`Store::import_frame` for POST /import): looked through there too
             return h.def_.startswith("xs::store::Store::") and facts.enclosing_fn(b).startswith("xs::api::handle_")
@@ -707,7 +711,7 @@ def single_caller_helpers(facts, anchors, pinned):
         if any(h.crate is not b.crate for (b, c) in ss):
             continue
         # only private helpers living in the anchors' own module ("extract function" refactors), never API items
-        if any(_module(h.def_) != _module(facts.enclosing_fn(b)) for (b, c) in ss):
+        if any(not _same_area(b) for (b, c) in ss):
             partial = True
         if not (h.vis or "").startswith("Restricted"):
             if "<" in h.def_:
@@ -779,69 +783,91 @@ def apply(facts, anchors, pinned):
             facts.inlined = done
         if not changed:
             break
-    for _ in range(MAX_ROUNDS):
-        cands = single_caller_helpers(facts, anchors, pinned)
-        if not cands:
-            break
-        # one call site per anchor per round (block indices shift only by appending, so several are fine too)
-        for (b, bb, h, hide) in cands:
-            cur = facts.body(b.def_)
-            cor = None
-            if isinstance(h, tuple):
-                (h, cor, params) = h
-                nj = inline_async_call(cur, bb, h, cor, params)
-                if nj is None:
-                    continue
-            else:
-                nj = inline_call(cur, bb, h)
-            nb = Body(cur.crate, nj)
-            nb.hidden = getattr(cur, "hidden", False)
-            cur.crate.bodies[nb.def_] = nb
-            cur.crate.body_list[cur.crate.body_list.index(cur)] = nb
-            if hide:
-                h.hidden = True
-                hc = facts.body(h.def_)      # the helper may itself have been rebuilt in this round (something was spliced into it)
-                if hc is not None:
-                    hc.hidden = True
-            done.append((b.def_, h.def_))
-            if cor is not None:
-                cor.hidden = True
-                done.append((b.def_, cor.def_))
-            facts.inlined = done
-            if hasattr(anchors, "adopt"):
-                anchors.adopt(h.def_)
-                if cor is not None:
-                    anchors.adopt(cor.def_)
-    # spawn adoption: a private async fn of the anchor's module whose future is handed straight to a spawn call in an anchor body
-    # (`tokio::spawn(send_heartbeats(..))`) runs as a task of that anchor: its coroutine body is looked at "under" the anchor.
-    SPAWNS = ("tokio::task::spawn::spawn", "tokio::task::spawn", "tokio::spawn", "tokio::task::local::spawn_local")
-    sites = {}
-    for b in facts.all_bodies():
-        live = b.live_blocks()
-        for c in b.calls():
-            if c.bb in live and c.local:
-                sites.setdefault(c.fn, []).append((b, c))
-    for fn, ss in sites.items():
-        h = facts.body(fn)
-        if h is None or fn in pinned or fn in _names_used_by_rules() or not (h.vis or "").startswith("Restricted"):
-            continue
-        sh = _async_shell(h)
-        cor = facts.body(sh[0]) if sh else None
-        if cor is None or any(b.def_ not in anchors for (b, c) in ss):
-            continue
-        ok = True
-        for (b, c) in ss:
-            if c.dest["p"]:
-                ok = False
+    # (two passes: a task function adopted in the first one may call helpers that can only be looked through once it is an anchor)
+    for _outer in range(2):
+        adopted_now = False
+        for _ in range(MAX_ROUNDS):
+            cands = single_caller_helpers(facts, anchors, pinned)
+            if not cands:
                 break
-            users = [u for u in b.calls() if u.bb in b.live_blocks() and any((a.get("move") or a.get("copy") or {}).get("l") == c.dest["l"] for a in u.args)]
-            if not users or not all(u.fn.startswith(SPAWNS) or u.fn.endswith("::spawn") for u in users):
-                ok = False
-        if ok:
-            for (b, c) in ss:
+            # one call site per anchor per round (block indices shift only by appending, so several are fine too)
+            for (b, bb, h, hide) in cands:
+                cur = facts.body(b.def_)
+                cor = None
+                if isinstance(h, tuple):
+                    (h, cor, params) = h
+                    nj = inline_async_call(cur, bb, h, cor, params)
+                    if nj is None:
+                        continue
+                else:
+                    nj = inline_call(cur, bb, h)
+                nb = Body(cur.crate, nj)
+                nb.hidden = getattr(cur, "hidden", False)
+                cur.crate.bodies[nb.def_] = nb
+                cur.crate.body_list[cur.crate.body_list.index(cur)] = nb
+                if hide:
+                    h.hidden = True
+                    hc = facts.body(h.def_)      # the helper may itself have been rebuilt in this round (something was spliced into it)
+                    if hc is not None:
+                        hc.hidden = True
                 done.append((b.def_, h.def_))
-                done.append((b.def_, cor.def_))
-            if hasattr(anchors, "adopt"):
-                anchors.adopt(cor.def_)
-            facts.inlined = done
+                if cor is not None:
+                    cor.hidden = True
+                    done.append((b.def_, cor.def_))
+                facts.inlined = done
+                if hasattr(anchors, "adopt"):
+                    anchors.adopt(h.def_)
+                    if cor is not None:
+                        anchors.adopt(cor.def_)
+        # spawn adoption: a private async fn of the anchor's module whose future is handed straight to a spawn call in an anchor body
+        # (`tokio::spawn(send_heartbeats(..))`) runs as a task of that anchor: its coroutine body is looked at "under" the anchor.
+        SPAWNS = ("tokio::task::spawn::spawn", "tokio::task::spawn", "tokio::spawn", "tokio::task::local::spawn_local")
+        sites = {}
+        for b in facts.all_bodies():
+            live = b.live_blocks()
+            for c in b.calls():
+                if c.bb in live and c.local:
+                    sites.setdefault(c.fn, []).append((b, c))
+        for fn, ss in sites.items():
+            h = facts.body(fn)
+            if h is None or fn in pinned or fn in _names_used_by_rules() or not (h.vis or "").startswith("Restricted"):
+                continue
+            sh = _async_shell(h)
+            cor = facts.body(sh[0]) if sh else None
+            if cor is None or any(b.def_ not in anchors for (b, c) in ss):
+                continue
+            ok = True
+            for (b, c) in ss:
+                if c.dest["p"]:
+                    ok = False
+                    break
+                users = [u for u in b.calls() if u.bb in b.live_blocks() and any((a.get("move") or a.get("copy") or {}).get("l") == c.dest["l"] for a in u.args)]
+                if not users or not all(u.fn.startswith(SPAWNS) or u.fn.endswith("::spawn") for u in users):
+                    ok = False
+            if ok and all((b.def_, cor.def_) in done for (b, c) in ss):
+                ok = False
+            if ok:
+                adopted_now = True
+                for (b, c) in ss:
+                    # the shell (`_0 = {coroutine}(args..)`) is spliced, so that the spawn call receives the coroutine aggregate itself,
+                    # exactly as with `tokio::spawn(async move { .. })`: rules read the captures off that aggregate
+                    cur = facts.body(b.def_)
+                    try:
+                        nj = inline_call(cur, c.bb, h)
+                    except Exception:
+                        nj = None
+                    if nj is not None:
+                        nb = Body(cur.crate, nj)
+                        nb.hidden = getattr(cur, "hidden", False)
+                        cur.crate.bodies[nb.def_] = nb
+                        cur.crate.body_list[cur.crate.body_list.index(cur)] = nb
+                        h.hidden = True
+                    done.append((b.def_, h.def_))
+                    done.append((b.def_, cor.def_))
+                if hasattr(anchors, "adopt"):
+                    anchors.adopt(h.def_)      # the task body itself becomes an anchor
+                    anchors.adopt(cor.def_)
+                facts.inlined = done
+        if not adopted_now:
+            break
     return done
